@@ -192,6 +192,54 @@ pub fn run(seed: u64, n: usize, out: &str, only: Option<usize>) {
     let mut nboundary = 0usize;
     let mut v1_accepted = 0usize;
     let mut boundary_sizes: Vec<u64> = vec![];
+    // Compression bombs: "memory bounded by a constant fixed by the limit plus the length of the input,
+    // independent of how far the input would decompress". The same fill is compressed at three sizes far
+    // beyond the limit; what from_str allocates (peak heap growth, counting allocator) may grow with the
+    // LENGTH OF THE STRING but not with the decompressed size. Runs on every invocation (also replays).
+    let mut bomb_peaks: Vec<(usize, usize, usize)> = vec![];
+    {
+        // a valid machine's encoding followed by filler: the part below the limit looks legitimate
+        let prefix = bin().serialize(&gen_machine(&mut SplitMix64::new(seed ^ 0xb0b), &MProfile::mixed())).unwrap();
+        for (fi, fill) in [0u8, 255u8, 0x41u8].iter().enumerate() {
+            let mut row: Vec<(usize, usize, usize)> = vec![];
+            for mib in [3usize, 24, 96] {
+                let mut raw: Vec<u8> = if fi == 2 { prefix.clone() } else { vec![] };
+                raw.resize(mib << 20, *fill);
+                let mut e = flate2::write::ZlibEncoder::new(Vec::new(), flate2::Compression::fast());
+                e.write_all(&raw).unwrap();
+                drop(raw);
+                let text = format!("02{}", BASE64_STANDARD.encode(e.finish().unwrap()));
+                let (res, peak) = crate::heapcount::peak_during(|| catch_unwind(AssertUnwindSafe(|| Machine::from_str(&text).map(|_| ()))));
+                match res {
+                    Err(_) => {
+                        viol += 1;
+                        writeln!(meta, "violation case=0 from_str panicked on a compression bomb of {} MiB (fill {:#x})", mib, fill).unwrap();
+                    }
+                    Ok(Ok(())) => {
+                        viol += 1;
+                        writeln!(meta, "violation case=0 from_str accepted a string that decompresses to {} MiB, beyond the 1 MiB limit", mib).unwrap();
+                    }
+                    Ok(Err(_)) => {}
+                }
+                row.push((mib, text.len(), peak));
+            }
+            let (_, len0, peak0) = row[0];
+            for (mib, len, peak) in &row[1..] {
+                // allowance: 8 bytes per additional input byte (base64 decoding, error strings) + 64 KiB slack
+                if *peak > peak0 + 8 * len.saturating_sub(len0) + (64 << 10) {
+                    viol += 1;
+                    writeln!(
+                        meta,
+                        "violation case=0 from_str's memory grows with the decompressed size of a compression bomb: fill {:#x}, a {}-byte string inflating to 3 MiB peaks at {} bytes, a {}-byte string inflating to {} MiB at {} bytes",
+                        fill, len0, peak0, len, mib, peak
+                    )
+                    .unwrap();
+                    break;
+                }
+            }
+            bomb_peaks.extend(row);
+        }
+    }
     for i in 0..n {
         let mut r = master.fork();
         if let Some(o) = only {
@@ -449,5 +497,6 @@ pub fn run(seed: u64, n: usize, out: &str, only: Option<usize>) {
         }
         let _ = from_mirror;
     }
-    writeln!(meta, "summary cases={} nontrivial={} violations={} kinds={:?} accepted_mutants={} max_bincode_bytes={} limit_boundary_sizes={:?} v1_accepted={}", n, distinct.len(), viol, kinds, accepted_mutants, max_bytes, boundary_sizes, v1_accepted).unwrap();
+    let bomb_txt: Vec<String> = bomb_peaks.iter().map(|(m, l, p)| format!("{}MiB/{}B:{}B", m, l, p)).collect();
+    writeln!(meta, "summary cases={} nontrivial={} violations={} kinds={:?} accepted_mutants={} max_bincode_bytes={} limit_boundary_sizes={:?} v1_accepted={} bomb_inflated_MiB_over_string_bytes_to_peak_heap_bytes=[{}]", n, distinct.len(), viol, kinds, accepted_mutants, max_bytes, boundary_sizes, v1_accepted, bomb_txt.join(",")).unwrap();
 }
